@@ -22,7 +22,9 @@ AllCases      == [lib : SUBSET PolicyKinds, elt : SUBSET PolicyKinds]
 MCLoadCases     == AcceptedCases \cup {c \in AllCases : ~ConfigAccepted(c.lib, c.elt)}
 MCLoadCasesAll  == AllCases
 
-MCDegKinds  == PolicyKinds \cup {"none"}
+MCDegKinds  == PolicyKinds \cup {"none", "pch0"}
+MCProfKinds == {"single", "firstListed", "explicit"}
+MCProfOne   == {"single"}
 MCCrossings == {"add", "drop", "express"}
 MCDeltas    == {0 - 3000000, 0, 3000000}
 V(a, b, c)  == <<a, b, c>>
@@ -47,22 +49,23 @@ SetSeq(S) == IF "pch" \in S THEN (IF "psd" \in S THEN (IF "psw" \in S THEN <<"pc
                    ELSE (IF "psw" \in S THEN <<"psw">> ELSE <<>>))
 EmitCross == phase # "out" \/
    PrintT("@@" \o ToJson([lib |-> SetSeq(cfg.lib), elt |-> SetSeq(cfg.elt), degKind |-> cfg.degKind,
-                          crossing |-> cfg.crossing, maxloss |-> cfg.maxloss,
+                          crossing |-> cfg.crossing, maxloss |-> cfg.maxloss, prof |-> cfg.prof,
+                          profiles |-> Profiles(cfg), explicitId |-> ExplicitId(cfg),
                           node |-> NodePolicy(cfg), deg |-> DegSetting(cfg),
                           ch |-> [k \in 1..N |-> [baudDb |-> ChanType[k].baudDb, slotDb |-> ChanType[k].slotDb,
-                                                  offset |-> cfg.offset[k], maxloss |-> cfg.maxloss[k], in |-> last.in[k], tgt |-> last.tgt[k],
+                                                  offset |-> cfg.offset[k], maxloss |-> PathLoss(cfg)[k], in |-> last.in[k], tgt |-> last.tgt[k],
                                                   out |-> last.out[k]]]]))
 EmitLoad == phase \notin {"ready", "rejected"} \/
    PrintT("@@" \o ToJson([lib |-> SetSeq(cfg.lib), elt |-> SetSeq(cfg.elt), accepted |-> (phase = "ready"),
                           inforce |-> IF phase = "ready" THEN SetSeq(InForce(cfg)) ELSE <<>>]))
 \* non-vacuity probes: each must be VIOLATED (TLC finds a witness of the antecedent)
-ProbeEqualised == ~(Crossed /\ \E k \in 1..N : last.in[k] - cfg.maxloss[k] > last.tgt[k] + cfg.offset[k])
-ProbeBelow     == ~(Crossed /\ \E k \in 1..N : last.in[k] - cfg.maxloss[k] < last.tgt[k] + cfg.offset[k])
-ProbeMixed     == ~(Crossed /\ (\E k \in 1..N : last.in[k] - cfg.maxloss[k] > last.tgt[k] + cfg.offset[k])
-                            /\ (\E k \in 1..N : last.in[k] - cfg.maxloss[k] < last.tgt[k] + cfg.offset[k]))
+ProbeEqualised == ~(Crossed /\ \E k \in 1..N : last.in[k] - PathLoss(cfg)[k] > last.tgt[k] + cfg.offset[k])
+ProbeBelow     == ~(Crossed /\ \E k \in 1..N : last.in[k] - PathLoss(cfg)[k] < last.tgt[k] + cfg.offset[k])
+ProbeMixed     == ~(Crossed /\ (\E k \in 1..N : last.in[k] - PathLoss(cfg)[k] > last.tgt[k] + cfg.offset[k])
+                            /\ (\E k \in 1..N : last.in[k] - PathLoss(cfg)[k] < last.tgt[k] + cfg.offset[k]))
 ProbeRejected  == phase # "rejected"
-ProbeDegOtherKind == ~(Crossed /\ cfg.degKind # "none" /\ cfg.degKind \notin InForce(cfg))
+ProbeDegOtherKind == ~(Crossed /\ cfg.degKind # "none" /\ DegKindOf(cfg.degKind) \notin InForce(cfg))
 \* a channel left unequalised in a range whose loss is lower than the largest loss of the crossing
-ProbeLowerLossRange == ~(Crossed /\ \E k, j \in 1..N : cfg.maxloss[k] < cfg.maxloss[j]
-                                        /\ last.in[k] - cfg.maxloss[j] < last.tgt[k] + cfg.offset[k])
+ProbeLowerLossRange == ~(Crossed /\ \E k, j \in 1..N : PathLoss(cfg)[k] < PathLoss(cfg)[j]
+                                        /\ last.in[k] - PathLoss(cfg)[j] < last.tgt[k] + cfg.offset[k])
 ==============================================================================
